@@ -188,6 +188,16 @@ let () =
       match split_ws case with
       | ("prog" | "child") :: toks -> run_turns toks impl_line
       | "free" :: toks -> run_free toks impl_line
+      | ["race"; n] ->
+        (* the install / first-use race: whatever the interleaving no iteration may break the delivery rule
+           (Model/Logging.v: a call is delivered to the logger installed at its linearisation point) *)
+        let model = Printf.sprintf "race %s bad=0 first=-" n in
+        let got = String.trim impl_line in
+        Printf.printf "%s | %s\n" model
+          (if got = model then "oracle=ok"
+           else match List.rev (String.split_on_char '=' got) with
+             | why :: _ :: _ -> "oracle=fail@race-" ^ why
+             | _ -> "oracle=fail@race-unreadable")
       | _ -> Printf.printf "? | oracle=badcase\n"
     with e -> Printf.printf "? | oracle=driver-exception-%s\n" (String.map (fun c -> if c = ' ' || c = '|' then '_' else c) (Printexc.to_string e))
   ) cases impl
